@@ -209,9 +209,15 @@ func drawVal(t *rapid.T, o termOpts, label string) *Val {
 func drawTerm(t *rapid.T, o termOpts, depth int, label string) *Term {
 	kinds := []string{"normal", "break", "continue", "return", "retval"}
 	if depth < o.maxDepth {
-		kinds = append(kinds,
-			"delay", "delay", "bind", "bind", "bind", "bindrecv", "combine", "combine", "combine",
-			"for", "for", "while", "loop")
+		inner := []string{"delay", "delay", "bind", "bind", "bind", "bindrecv", "combine", "combine", "combine",
+			"for", "for", "while", "loop"}
+		kinds = append(kinds, inner...)
+		if depth < 3 {
+			// near the root compound terms dominate, otherwise most drawn terms are a single leaf
+			for i := 0; i < 5; i++ {
+				kinds = append(kinds, inner...)
+			}
+		}
 	}
 	k := rapid.SampledFrom(kinds).Draw(t, label+".k")
 	r := &Term{K: k}
